@@ -855,6 +855,7 @@ theorem inv_runQuery (ip tp : Res ρ β σ → D) (s : St Ph C β σ τ π κ) (
     exact ⟨h.calls, h.used, by intro p tag pts hp; simp [runQuery, setDens] at hp⟩
   | clear =>
     exact ⟨h.calls, h.used, by intro p tag pts hp; simp [runQuery, clearCache] at hp⟩
+  | setMethod => exact ⟨h.calls, h.used, h.points⟩
 
 theorem inv_runAll (ip tp : Res ρ β σ → D) :
     ∀ (hist : List (Query Ph τ χ)) (s : St Ph C β σ τ π κ), Inv E s → Inv E (runAll E cfg ip tp s hist)
@@ -1291,6 +1292,7 @@ theorem purity_for_every_history (hs : StartIndependent E)
   | ic x T ge p => rfl
   | setDens d' => rfl
   | clear => rfl
+  | setMethod => rfl
 
 /-- … and the values themselves are the explicit functions of the arguments defined above -/
 theorem query_values (hs : StartIndependent E) (ip tp : Res ρ β σ → D) (d : Nat) (hist : List (Query Ph τ χ)) :
